@@ -100,6 +100,7 @@ type snap struct {
 	meta raft.SnapshotMeta
 	data []byte
 	done bool
+	bad  bool // damaged on disk: still listed (its meta file is fine), Open fails (checksum)
 	seq  uint64
 }
 
@@ -162,6 +163,7 @@ type Fault struct {
 // Disk is the durable state of one server across all its incarnations.
 type Disk struct {
 	StoreDelay time.Duration // set once before the first incarnation starts
+	openFail   int           // the next n snapshot Open calls of the live incarnation fail (a transient read error)
 	// StableDelay: a stable-store write takes this long before it takes effect (or the armed fault strikes). Meanwhile the
 	// goroutine that issued it (usually raft's main loop) sits in the call while the others (heartbeat fast path, API readers) go on.
 	StableDelay time.Duration
@@ -587,12 +589,47 @@ func (h *Handle) Open(id string) (*raft.SnapshotMeta, io.ReadCloser, error) {
 	defer h.d.mu.Unlock()
 	for _, s := range h.im.snaps {
 		if s.done && s.meta.ID == id {
+			if h.d.openFail > 0 && h.ep == h.d.epoch {
+				h.d.openFail--
+				h.d.w.Log(Ev{K: "d.snap.openfail", S: h.d.name, Ep: h.ep, X: id})
+				return nil, nil, fmt.Errorf("snapshot %s: injected read error", id)
+			}
+			if s.bad {
+				return nil, nil, fmt.Errorf("snapshot %s is damaged (CRC mismatch)", id)
+			}
 			m := s.meta
 			m.Configuration = m.Configuration.Clone()
 			return &m, io.NopCloser(bytes.NewReader(append([]byte(nil), s.data...))), nil
 		}
 	}
 	return nil, nil, fmt.Errorf("no snapshot %s", id)
+}
+
+// FailNextOpens makes the next n snapshot Open calls fail; OpenFailsLeft tells how many are still armed.
+func (d *Disk) FailNextOpens(n int) { d.mu.Lock(); d.openFail = n; d.mu.Unlock() }
+func (d *Disk) OpenFailsLeft() int  { d.mu.Lock(); defer d.mu.Unlock(); return d.openFail }
+
+// DamageNewestSnapshot makes the newest complete snapshot of the durable image unreadable (to be called
+// while the server is down): start-up has to fall back to the next usable one.
+func (d *Disk) DamageNewestSnapshot() bool {
+	d.mu.Lock()
+	defer d.mu.Unlock()
+	var best *snap
+	n := 0
+	for _, s := range d.im.snaps {
+		if s.done && !s.bad {
+			n++
+			if best == nil || snapLess(best, s) {
+				best = s
+			}
+		}
+	}
+	if n < 2 {
+		return false // nothing to fall back to
+	}
+	best.bad = true
+	d.w.Log(Ev{K: "d.snap.damage", S: d.name, Ep: d.epoch, X: best.meta.ID, A: best.meta.Index})
+	return true
 }
 
 // ---- inspection helpers (HANDLER engine, tests) ----
